@@ -46,7 +46,11 @@ class Ctx:
         cfg = cfg or self.cfg
         if cfg not in self._progs:
             d = extract.extract(cfg)
-            self._progs[cfg] = Program(d, cfg)
+            p = Program(d, cfg)
+            if getattr(self, "inline_keep", None) is not None and not os.environ.get("VERIF_NO_INLINE"):
+                from . import inline
+                self.inlined_bodies = inline.enable(p, self.inline_keep)
+            self._progs[cfg] = p
         return self._progs[cfg]
 
     # ---- recording
@@ -89,6 +93,27 @@ class Ctx:
     def note(self, s):
         if s not in self.notes:
             self.notes.append(s)
+
+
+_VOCAB = None
+
+
+def rule_vocabulary_keep():
+    """keep(name) for lib.inline: a crate-local callee stays a call when the rules can know it by name - its last path
+    segment occurs as a word somewhere in rules/*.py. Helpers the rules have never heard of are inlined into their callers."""
+    global _VOCAB
+    if _VOCAB is None:
+        import glob
+        import re
+        txt = "".join(open(f).read() for f in sorted(glob.glob(os.path.join(VERIF, "rules", "*.py"))))
+        _VOCAB = set(re.findall(r"[A-Za-z_][A-Za-z0-9_]*", txt))
+    vocab = _VOCAB
+
+    def keep(name):
+        last = name.rsplit("::", 1)[-1]
+        last = last.split("#")[0]
+        return last in vocab
+    return keep
 
 
 def load_known():
@@ -135,6 +160,8 @@ def run_property(prop, tier="quick", seed=0):
     mod = importlib.import_module("rules." + prop)
     ctx = Ctx(prop, tier, seed)
     _guard_rules(mod, ctx)
+    if getattr(mod, "INLINE", False):
+        ctx.inline_keep = rule_vocabulary_keep()
     cfgs = [c for c in TIER_CONFIGS[tier] if c in getattr(mod, "CONFIGS", ["K1", "K2", "K3", "K4"])]
     status = 0
     try:
